@@ -265,7 +265,7 @@ LATE = {
     'C19': "Added late: compound assignment operators (R19.9), key/number inverse maps (R19.10), copying a set of empty vectors (R19.11), no clear() after num was overwritten (R19.12), a one-statement while loop steps the counter its guard tests (R19.13), has(DataKey) range-checks (R19.14), a loop filling a fresh block is not bounded by the old capacity alone (R19.15), loops over theitem are bounded by size() (R19.16), no bounds-asserting subscript to form an address for setMem() (R19.17), reMax() clamps against the size in effect (R19.18), filling members of SVectorBase set the size (R19.19), Array::insert at begin() + i (R19.20), the open-addressing invariants of DataHashTable - the end-of-chain status is assigned only by a loop over all slots so remove() leaves a tombstone, m_used follows every single-slot status change, add() and index() walk the same probe sequence (R19.21-R19.23).",
     'C20': "Added late: every undo of an LP extension of the exact solver re-dimensions the solution vectors of the extended kind on every path, because the getters behind SoPlex_get*Real copy the whole vector into the caller's array (R20.7); memory from new held in a local pointer of a C function is deleted on every path unless returned (R20.8).",
 }
-SHAPES = " Generic shape rules S1-S12 (rules/shapes.py: infinity comparisons, position-or-minus-one tests, loop bounds, sparse position/index, mirror chains and mirror sibling functions, sense ternaries, comparators, row/column loop domains, argument selection, mirror switch arms) are reported under the property that owns the function."
+SHAPES = " Generic shape rules S1-S12 (rules/shapes.py: infinity comparisons, position-or-minus-one tests, loop bounds, sparse position/index, mirror chains and mirror sibling functions, sense ternaries, comparators, row/column loop domains, argument selection, mirror switch arms) and S13 (rules/late.py: a sign flip of an element inside a loop addresses an element that varies with the loop) are reported under the property that owns the function."
 
 NA = {
 }
